@@ -52,8 +52,8 @@ class C06(BaseCheck):
                  'no jitter; eventual convergence is restated as: reached within 2/3 of a >= 60 s phase')
   QUICK_CASES = 480
   THOROUGH_CASES = 8000
-  QUICK_WALL = 50
-  THOROUGH_WALL = 420
+  QUICK_WALL = 180
+  THOROUGH_WALL = 1800
   MIN_DISTINCT = 10
 
   def setup(self, env, tier):
